@@ -25,6 +25,13 @@ def run_job(job):
             os.chdir(job["cwd"])
         if job.get("mode") == "path":
             mol = propka.run.single(job["path"], optargs=opts, write_pka=False)
+        elif job.get("mode") in ("stream-reused", "stream-read-before"):
+            st = io.StringIO(job["text"])
+            if job["mode"] == "stream-reused":
+                propka.run.single(job.get("name", "x.pdb"), optargs=opts, stream=st, write_pka=False)     # first use of the same stream object
+            else:
+                st.read()                                                                                # the caller has read the stream to its end
+            mol = propka.run.single(job.get("name", "x.pdb"), optargs=opts, stream=st, write_pka=False)
         else:
             mol = propka.run.single(job.get("name", "x.pdb"), optargs=opts, stream=io.StringIO(job["text"]), write_pka=False)
     finally:
